@@ -219,7 +219,9 @@ impl Store {
         mut f: impl FnMut(&Access),
     ) {
         let access = match &self.entries[operation.obj.index] {
-            Entry::Arc(entry) => entry.last_dependent_access(operation.action.into()),
+            Entry::Arc(entry) => {
+                return entry.for_each_dependent_access(operation.action.into(), f);
+            }
             Entry::Atomic(entry) => {
                 return entry.for_each_dependent_access(operation.action.into(), f);
             }
